@@ -4,6 +4,9 @@
      ev "call"   one function applied to exact arguments                         fields  tb, f, args, obs
      ev "ident"  both sides of identity `name` evaluated at the point (z, w)     fields  tb, name, z, w, obs
      ev "const"  one of the constants i, j, e, pi                                fields  tb, name, obs
+   tb is the scope the text was evaluated in: "formula", "matrix" or "override" (every default name bound to an author's
+   function returning BuiltinFuncs!Marker); every generated text is evaluated under all three, in a drawn order, within
+   one process, and each evaluation is a record of its own, judged against the outcome of ITS scope.
    Arguments are arrays [sh, e] whose entries are Gaussian rationals <<<<n, d>>, <<n, d>>>> taken from the generated
    case; observed floats never reach TLC: the adapter reduces them to the discrete facts described at Accepts /
    AcceptsIdent in BuiltinFuncs (exact fractions of small denominator where the float is within 1e-9 of one, signs,
